@@ -76,6 +76,10 @@ def _num_equal(ctx, got, want):
         return E.and_(float(got.factor) == float(factor), E.eq(got.base, base))
     if type(base) is SymInt:
         return False
+    if isinstance(got, Decimal) and isinstance(factor, Decimal):
+        # 'returned as Decimals to preserve precision': exact
+        import decimal
+        return got == decimal.Context(prec=80).multiply(Decimal(base), factor)
     return abs(float(got) - float(factor) * base) <= 1e-9 * max(1.0, abs(float(got)))
 
 
